@@ -286,3 +286,24 @@ impl std::ops::DerefMut for SerializerConfigRef<'_, '_> {
 		}
 	}
 }
+
+/// Verification hook (add-only, compiled out unless `--cfg ten0_serde_avro_fast_verif`)
+#[cfg(ten0_serde_avro_fast_verif)]
+#[doc(hidden)]
+impl SerializerConfig<'_> {
+	/// Lengths of the pooled buffers and of the pooled super-buffers, bottom to top
+	pub fn verif_pool(&self) -> (Vec<usize>, Vec<usize>) {
+		(
+			self.buffers
+				.field_reordering_buffers
+				.iter()
+				.map(|b| b.len())
+				.collect(),
+			self.buffers
+				.field_reordering_super_buffers
+				.iter()
+				.map(|b| b.len())
+				.collect(),
+		)
+	}
+}
